@@ -2,29 +2,18 @@ package main
 
 import (
 	"fmt"
+	"os"
 	"github.com/ajitpratap0/GoSQLX/pkg/gosqlx"
 	"verif/internal/project"
 )
 
 func main() {
-	base := "SELECT a FROM t LEFT JOIN u ON t.a = u.a GROUP BY a ORDER BY a"
-	t0, err := gosqlx.Parse(base)
-	fmt.Println(err)
-	ref := project.String(t0.Statements)
-	for _, s := range []string{
-		"SELECT a FROM t LEFT /* c */ JOIN u ON t.a = u.a GROUP BY a ORDER BY a",
-		"SELECT a FROM t LEFT JOIN u ON t.a = u.a GROUP /* c */ BY a ORDER BY a",
-		"SELECT a FROM t LEFT JOIN u ON t.a = u.a GROUP BY a ORDER -- c\n BY a",
-		"SELECT a FROM t LEFT\nJOIN u ON t.a = u.a GROUP\tBY a ORDER   BY a",
-		"SELECT a FROM t LEFT OUTER JOIN u ON t.a = u.a GROUP BY a ORDER BY a",
-		"SELECT a FROM t LEFT /*c*/ OUTER /*c*/ JOIN u ON t.a = u.a GROUP BY a ORDER BY a",
-		"select a from t left join u on t.a = u.a group by a order by a",
-	} {
+	for _, s := range os.Args[1:] {
 		t, err := gosqlx.Parse(s)
 		if err != nil {
-			fmt.Printf("%q\n   ERR %v\n", s, err)
+			fmt.Printf("%s\n   ERR %.150v\n", s, err)
 			continue
 		}
-		fmt.Printf("%q\n   same=%v\n", s, project.String(t.Statements) == ref)
+		fmt.Printf("%s\n   %s\n", s, project.String(t.Statements))
 	}
 }
